@@ -7,20 +7,12 @@
 #ifndef C06_MTAG_H
 #define C06_MTAG_H
 #define RV __CPROVER_return_value
-typedef struct { size_t len; } nstring;
-typedef struct { int _d; } Dimension;
-extern opt_ndsize gh_ge;                                   /* GreaterOrEqual(position) along this dimension */
-NIX_THROWS opt_ndsize positionToIndex_scalar(double position, const nstring *unit, PositionMatch match, const Dimension *dimension)
-__CPROVER_requires(nix_exc == EXC_NONE && match == PositionMatch_GreaterOrEqual)
-__CPROVER_ensures(nix_exc == EXC_NONE || nix_exc == EXC_IncompatibleDimensions)
-__CPROVER_ensures(nix_exc == EXC_NONE ==> ((RV.has != 0) == (gh_ge.has != 0) && RV.val == gh_ge.val))
-__CPROVER_assigns(nix_exc)
-;
+/* nstring, Dimension, gh_ge, gh_pair_start and positionToIndex_scalar: see c05_tag.h */
 /* region A */
 #define M_OLD(p, k) __CPROVER_old((p)->dims[k])
 NIX_THROWS void mtag_assemble_dim(opt_pair opt_range, NDSize *data_offset, NDSize *data_count, NDSize *temp_offset, size_t dim_index, size_t i, double start_pos, double end_pos, const nstring *unit, const Dimension *dimension)
 __CPROVER_requires(ND_OK(data_offset) && ND_OK(data_count) && ND_OK(temp_offset) && data_offset->rank == data_count->rank && dim_index < data_offset->rank)
-__CPROVER_requires(__CPROVER_is_fresh(unit, sizeof(nstring)) && __CPROVER_is_fresh(dimension, sizeof(Dimension)) && nix_exc == EXC_NONE)
+__CPROVER_requires(__CPROVER_is_fresh(unit, sizeof(nstring)) && __CPROVER_is_fresh(dimension, sizeof(Dimension)) && nix_exc == EXC_NONE && (gh_pair_start == end_pos || (isnan(end_pos) && isnan(gh_pair_start))))
 __CPROVER_ensures(/*region-with-elements:offset-is-first-index*/ opt_range.has ==> (nix_exc == EXC_NONE && data_offset->dims[dim_index] == opt_range.val.first))
 __CPROVER_ensures(/*region-with-elements:count-spans-to-last-index*/ opt_range.has ==> data_count->dims[dim_index] == M_OLD(data_count, dim_index) + (opt_range.val.second - opt_range.val.first))
 __CPROVER_ensures(/*point:first-element-at-or-after-the-position*/ (!opt_range.has && end_pos == start_pos && gh_ge.has && nix_exc == EXC_NONE) ==>
